@@ -897,21 +897,7 @@ theorem config_load_terminates (w : World) (U : List String) (hU : YmlClosed w U
   obtain ⟨r, hr, hd⟩ := fromPath_terminates hU hC items hy hf _ (Nat.le_refl _)
   refine ⟨r, ?_, hd⟩
   intro n hn
-  -- more fuel, same result
-  unfold fromPath at hr ⊢
-  cases hl : loadIfAny w (total w U (initSt items) + U.length + 4) (initSt items) with
-  | none => rw [hl] at hr; simp at hr
-  | some r₁ =>
-    rw [hl] at hr
-    have hl' : loadIfAny w n (initSt items) = some r₁ := by
-      clear hr
-      induction hn with
-      | refl => exact hl
-      | step _ ih => exact loadIfAny_mono _ _ _ ih
-    rw [hl']
-    cases r₁ with
-    | error e => exact hr
-    | ok s₁ => exact parseLoop_mono_le hr hn
+  exact fromPath_mono_le hr hn
 
 example : ymlPaths [Item.co 0] ⊆ demoU ∧ ∀ f ∈ coFiles [Item.co 0], ∀ ips, demoWorld.parse f = some ips → ips ⊆ demoU := by
   refine ⟨by simp [ymlPaths], ?_⟩
@@ -933,6 +919,54 @@ example : closedWorld demoWorld demoU [Item.co 0] = true := by decide
 def demoResult : St := { importPaths := ["a", "pkg", "b"], imported := [("a", "lib/a.co"), ("pkg", "lib/pkg"), ("b", "lib/b.co")], files := [0, 1, 3, 2], parsed := 4 }
 
 example : fromPath demoWorld 12 [Item.co 0] = some (.ok demoResult) := by decide
+
+/-- `RailsConfig.from_content` (main content + YAML) ends under the same hypotheses: one fuel-independent result. -/
+theorem content_load_terminates (w : World) (U : List String) (hU : YmlClosed w U) (hC : CoClosed w U) (yml : List String) (main : Nat)
+    (hy : yml ⊆ U) (hf : ∀ ips, w.parse main = some ips → ips ⊆ U) :
+    ∃ r, (∀ n, 1 + pend w [] U + U.length + 4 ≤ n → fromContent w n yml main = some r) ∧ ∀ s', r = .ok s' → Done U s' := by
+  obtain ⟨r, hr, hd⟩ := fromContent_terminates hU hC yml main hy hf _ (Nat.le_refl _)
+  exact ⟨r, fun n hn => fromContent_mono_le hr hn, hd⟩
+
+example : (["a", "a"] : List String) ⊆ demoU ∧ ∀ ips, demoWorld.parse 0 = some ips → ips ⊆ demoU := by
+  refine ⟨by simp [demoU], ?_⟩
+  intro ips hps
+  simp [demoWorld] at hps; subst hps; simp [demoU]
+
+/-- What a successful load has loaded is CLOSED - the fix-point really is one (∀ world, ∀ fuel, no hypothesis): the result
+    contains the import paths and files of the directory; every imported path resolved, and its `.yml` import paths and its `.co`
+    files are in; every parsed file's imports are in.  -/
+theorem config_load_closed (w : World) (n : Nat) (items : List Item) (s' : St) (h : fromPath w n items = some (.ok s')) :
+    Cl w s' ∧ ymlPaths items ⊆ s'.importPaths ∧ coFiles items ⊆ s'.files :=
+  fromPath_cl n items s' h
+
+/-- ... and, with termination: whenever the loader returns, EVERYTHING reachable from the directory is loaded - every import
+    path of the final list resolved and brought in its `.yml` imports and its files, every file of the final list was parsed and
+    contributed its imports.  (This is the statement behind the composition clause of the search oracle.) -/
+theorem config_load_loads_everything (w : World) (U : List String) (hU : YmlClosed w U) (hC : CoClosed w U) (items : List Item)
+    (hy : ymlPaths items ⊆ U) (hf : ∀ f ∈ coFiles items, ∀ ips, w.parse f = some ips → ips ⊆ U)
+    (n : Nat) (s' : St) (h : fromPath w n items = some (.ok s')) :
+    (ymlPaths items ⊆ s'.importPaths ∧ coFiles items ⊆ s'.files) ∧
+    (∀ p ∈ s'.importPaths, ∃ a its, w.resolve p = some (a, its) ∧ ymlPaths its ⊆ s'.importPaths ∧ coFiles its ⊆ s'.files) ∧
+    (∀ f ∈ s'.files, ∀ ips, w.parse f = some ips → ips ⊆ s'.importPaths) := by
+  obtain ⟨hcl, hr₁, hr₂⟩ := fromPath_cl n items s' h
+  obtain ⟨r, hr, hd⟩ := config_load_terminates w U hU hC items hy hf
+  have hbig := hr (max n (total w U (initSt items) + U.length + 4)) (Nat.le_max_right _ _)
+  have hn : fromPath w (max n (total w U (initSt items) + U.length + 4)) items = some (.ok s') :=
+    fromPath_mono_le h (Nat.le_max_left _ _)
+  rw [hn] at hbig
+  injection hbig with hbig
+  have hdone := hd s' hbig.symm
+  refine ⟨⟨hr₁, hr₂⟩, ?_, ?_⟩
+  · intro p hp
+    have hk := hdone.allImported p hp
+    simp only [St.keys, List.mem_map] at hk
+    obtain ⟨⟨q, a⟩, hqa, rfl⟩ := hk
+    obtain ⟨its, h₁, h₂, h₃⟩ := hcl.imp q a hqa
+    exact ⟨a, its, h₁, h₂, h₃⟩
+  · intro f hfm ips hps
+    obtain ⟨i, hi, hfi⟩ := List.getElem_of_mem hfm
+    have hi' : i < s'.parsed := by rw [hdone.allParsed]; exact hi
+    exact hcl.par i f hi' (by rw [List.getElem?_eq_getElem hi, hfi]) ips hps
 
 /-- As-is characterisation of the exit test `len(imported_paths) == len(import_paths)`: it compares a dict with a list, so
     the loop can return ONLY IF the list has no repetition - the de-duplication in `_join_config` is what termination rests
